@@ -5,13 +5,20 @@ the expected output is assembled from these parts directly (the oracle never spl
 never calls the functions under test).  Real functions: mokapot.parsers.pin_to_tsv.pin_to_valid_tsv /
 is_valid_tsv, and the verify step of the CLI: the `if config.verify_pin:` block is cut out of the real
 mokapot/mokapot.py with `ast` at run time and executed on real files with a stub `config`.
+
+A third check puts characters that quoting / escaping table readers treat specially (double quotes in every
+position, quotes around a TAB or a line break, backslashes, apostrophes, carriage return and other separator-like
+control characters, punctuation) into the fields: the format has no quoting, so the oracle is still the plain
+assembly of the parts.
 """
 import ast
+import csv
 import io
 import itertools
 import json
 import logging
 import os
+import random
 import shutil
 import warnings
 
@@ -304,11 +311,318 @@ def check_cli(tier, seed):
     return ck
 
 
+# ------------------------------------------------------------------------------------------------ special characters
+def _mid(ins):
+    """insert `ins` strictly inside the field (not applicable to one-character fields)"""
+    def f(v):
+        if len(v) < 2:
+            return None
+        m = len(v) // 2
+        return v[:m] + ins + v[m:]
+    return f
+
+
+# one field is rewritten; the value stays ONE field of the TAB-separated line (no TAB, no '\n' is added, nothing at
+# the boundary of a line is whitespace).  name -> (class of the case id, function)
+FIELD_KINDS = {
+    "q-lead": ("quote-char", lambda v: '"' + v),
+    "q-trail": ("quote-char", lambda v: v + '"'),
+    "q-both": ("quote-char", lambda v: '"' + v + '"'),
+    "q-mid": ("quote-char", _mid('"')),
+    "q-mid-pair": ("quote-char", _mid('"x"')),
+    "qq-lead": ("quote-char", lambda v: '""' + v),
+    "qq-trail": ("quote-char", lambda v: v + '""'),
+    "qq-mid": ("quote-char", _mid('""')),
+    "q-both-qq-mid": ("quote-char", lambda v: None if len(v) < 2 else '"' + _mid('""')(v) + '"'),
+    "qq-only": ("quote-char", lambda v: '""'),
+    "q-only": ("quote-char", lambda v: '"'),
+    "qqq-lead": ("quote-char", lambda v: '"""' + v),
+    "q-both-text-after": ("quote-char", lambda v: '"' + v + '"x'),
+    "bs-lead": ("backslash", lambda v: "\\" + v),
+    "bs-trail": ("backslash", lambda v: v + "\\"),               # a backslash right before the TAB / line end
+    "bs-mid": ("backslash", _mid("\\")),
+    "bs-n-trail": ("backslash", lambda v: v + "\\n"),            # the two characters backslash, n
+    "bs-q-lead": ("backslash", lambda v: '\\"' + v),
+    "q-both-bs-q": ("backslash", lambda v: '"' + v + '\\"'),     # a closing quote that an escapechar reader skips
+    "apos-lead": ("apostrophe", lambda v: "'" + v),
+    "apos-both": ("apostrophe", lambda v: "'" + v + "'"),
+    "cr-mid": ("carriage-return", _mid("\r")),
+    "ff-mid": ("separator-like-control-char", _mid("\x0c")),     # str.splitlines() breaks lines here, the format not
+    "us-mid": ("separator-like-control-char", _mid("\x1f")),
+    "nel-mid": ("separator-like-control-char", _mid("\x85")),
+    "comma-mid": ("punctuation", _mid(",")),
+    "semicolon-mid": ("punctuation", _mid(";")),
+    "space-mid": ("punctuation", _mid(" ")),
+    "hash-lead": ("punctuation", lambda v: "#" + v),
+}
+# characters that cannot be written to / read back from a FILE opened in text mode unchanged (universal newlines,
+# non-ASCII): these kinds are used on in-memory streams only
+MEMORY_ONLY_KINDS = {"cr-mid", "nel-mid"}
+
+# two fields i < j of a line (or of two consecutive lines) are rewritten: a quoted stretch opens in the first and
+# closes in the second, so the TABs (and line break) between them stand "inside quotes".  name -> (class, open, close)
+SPAN_KINDS = {
+    "span-q": ("quoted-tab", lambda v: '"' + v, lambda v: v + '"'),
+    "span-q-text-after": ("quoted-tab", lambda v: '"' + v, lambda v: v + '"x'),
+    "span-q-qq-inside": ("quoted-tab", lambda v: '"' + v + '""', lambda v: v + '"'),
+    "span-q-open-mid": ("quoted-tab", lambda v: (_mid('"')(v) or v + '"'), lambda v: v + '"'),
+    "span-apos": ("apostrophe-quoted-tab", lambda v: "'" + v, lambda v: v + "'"),
+}
+XLINE_KINDS = ("span-q", "span-q-text-after")
+# the kinds that are also run as real files through the CLI verify step (file cases are slow on a loaded machine)
+FILE_KINDS = {"span-q", "span-q-text-after", "q-lead", "q-trail", "q-both", "qq-only", "bs-trail", "apos-both",
+              "ff-mid"}
+
+
+class SpecialPin(Pin):
+    """A Pin some of whose fields were rewritten.  decor: list of [kind, line_i, i, line_j, j]; line -1 is the
+    header, line r >= 0 the r-th PSM row; i, j index the fields of the WHOLE line (protein fields included)."""
+    def __init__(self, n_feat, prot_pos, prot_counts, default_direction, trailing_newline, decor):
+        Pin.__init__(self, n_feat, prot_pos, prot_counts, default_direction, trailing_newline)
+        self.decor = [list(d) for d in decor]
+        pos = prot_pos
+        lines = {-1: list(self.header)}
+        for r, (vals, prots) in enumerate(self.rows):
+            lines[r] = vals[:pos] + prots + vals[pos:]
+        for kind, li, i, lj, j in self.decor:
+            if (li == -1 and i == pos) or (lj == -1 and j == pos):
+                raise ValueError("the name of the protein column is not rewritten")
+            if kind in FIELD_KINDS:
+                new = FIELD_KINDS[kind][1](lines[li][i])
+                if new is None:
+                    raise ValueError("%s not applicable to %r" % (kind, lines[li][i]))
+                lines[li][i] = new
+            else:
+                if not ((li == lj and i < j) or (lj == li + 1 and li >= 0)):
+                    raise ValueError("bad span")
+                _, op, cl = SPAN_KINDS[kind]
+                lines[li][i] = op(lines[li][i])
+                lines[lj][j] = cl(lines[lj][j])
+        self.header = lines[-1]
+        self.other_cols = self.header[:pos] + self.header[pos + 1:]
+        self.rows = []
+        for r, n in enumerate(self.prot_counts):
+            full = lines[r]
+            self.rows.append((full[:pos] + full[pos + n:], full[pos:pos + n]))
+
+    def key(self):
+        return (self.text(), self.prot_pos, self.prot_counts)
+
+    def as_input(self):
+        d = Pin.as_input(self)
+        d["decor"] = self.decor
+        return d
+
+    @staticmethod
+    def from_input(i):
+        return SpecialPin(i["n_feat"], i["prot_pos"], i["prot_counts"], i["default_direction"],
+                          i["trailing_newline"], i["decor"])
+
+    def case_class(self):
+        """stable prefix of the case ids: where the special characters stand and of which kind they are"""
+        kinds = set()
+        for kind, li, i, lj, j in self.decor:
+            cls = (FIELD_KINDS.get(kind) or SPAN_KINDS.get(kind))[0]
+            if kind in SPAN_KINDS and li != lj:
+                cls = "quoted-line-break"
+            kinds.add(("header-" if li == -1 else "") + cls)
+        return kinds.pop() if len(kinds) == 1 else "mixed-special-chars"
+
+    def file_safe(self):
+        return not any(kind in MEMORY_ONLY_KINDS for kind, *_ in self.decor)
+
+    def tab_lines(self):
+        """the field lists of all lines of the text, from the parts"""
+        out = [list(self.header)]
+        if self.dd:
+            out.append(self.text().split("\n")[1].split("\t"))      # the (undecorated) DefaultDirection line
+        pos = self.prot_pos
+        return out + [vals[:pos] + prots + vals[pos:] for vals, prots in self.rows]
+
+    def quoting_matters(self):
+        """Measurement for the non-triviality count only (never for the expected answer): does a quote-aware reader
+        (Python's csv module, TAB delimiter, default dialect) see other fields than plain TAB splitting?
+        -> (differs, rectangular for the csv reader)"""
+        try:
+            rows = list(csv.reader(io.StringIO(self.text(), newline=""), delimiter="\t"))
+        except csv.Error:
+            return True, None
+        rect = bool(rows) and all(len(r) == len(rows[0]) for r in rows) and not self.dd
+        return rows != self.tab_lines(), rect
+
+
+def _line_decors(n_fields, line, skip=None):
+    idx = [i for i in range(n_fields) if i != skip]
+    for kind in FIELD_KINDS:
+        for i in idx:
+            yield [kind, line, i, line, i]
+    for kind in SPAN_KINDS:
+        for i, j in itertools.combinations(idx, 2):
+            yield [kind, line, i, line, j]
+
+
+def special_pins(tier):
+    """-> (SpecialPin, also_as_file).  Deterministic families A (one rewritten PSM row), B (a quoted stretch that runs
+    over a line break), C (rewritten header)."""
+    quick = tier == "quick"
+    for n_feat in ((1,) if quick else (0, 1, 2)):
+        n_other = 3 + n_feat
+        for pos in range(n_other + 1):
+            # A: one decoration on one PSM row that has 1..3 proteins
+            for n_prot in (1, 2, 3):
+                ctx = [((n_prot,), 0, 0, False, False), ((n_prot,), 0, 0, True, False),
+                       ((n_prot, 1), 0, 0, True, False), ((n_prot, 2), 0, 0, True, False),
+                       ((1, n_prot), 1, 0, True, True), ((1, n_prot), 1, 0, False, False),
+                       ((2, n_prot), 1, 0, True, False),
+                       ((n_prot,), 0, 1, True, False), ((n_prot,), 0, 2, True, False)]
+                if not quick:
+                    ctx += [((1, n_prot, 1), 1, 0, True, True), ((3, n_prot, 2), 1, 0, False, False),
+                            ((1, 1, n_prot), 2, 0, False, True), ((n_prot, 1, 1), 0, 1, True, False)]
+                for counts, d, dd, nl, as_file in ctx:
+                    for dec in _line_decors(n_other + n_prot, d):
+                        try:
+                            yield (SpecialPin(n_feat, pos, counts, dd, nl, [dec]),
+                                   as_file and dec[0] in FILE_KINDS)
+                        except ValueError:
+                            pass
+            # B: the quote opens on one row and closes on the next one
+            for a, b in itertools.product((1, 2, 3), repeat=2):
+                la, lb = n_other + a, n_other + b
+                pairs = {(i, lb - 1) for i in range(la)} | {(la - 1, j) for j in range(lb)} | {(pos, pos + b - 1)}
+                for kind in XLINE_KINDS:
+                    for i, j in sorted(pairs):
+                        for counts, r0, nl in (((a, b), 0, True), ((a, b), 0, False), ((1, a, b), 1, True)):
+                            if quick and len(counts) == 3 and (i, j) != (pos, pos + b - 1):
+                                continue
+                            yield (SpecialPin(n_feat, pos, counts, 0, nl, [[kind, r0, i, r0 + 1, j]]),
+                                   nl and r0 == 0 and (i, j) in ((pos, pos + b - 1), (la - 1, lb - 1)))
+            # C: rewritten column names (not the name of the protein column)
+            for counts, dd, nl in (((1,), 0, True), ((2,), 0, True), ((1, 1), 0, False), ((1, 3), 0, True),
+                                   ((1,), 1, True)):
+                for dec in _line_decors(n_other + 1, -1, skip=pos):
+                    try:
+                        yield (SpecialPin(n_feat, pos, counts, dd, nl, [dec]),
+                               counts == (2,) and dec[0] in FILE_KINDS)
+                    except ValueError:
+                        pass
+
+
+def random_special_pins(tier, seed):
+    """Seeded-random texts with 1..3 decorations anywhere (header, rows, over line breaks)."""
+    rng = random.Random(seed * 7919 + 19)
+    n = 2500 if tier == "quick" else 40000
+    fkinds, skinds = sorted(FIELD_KINDS), sorted(SPAN_KINDS)
+    made = 0
+    while made < n:
+        n_feat = rng.randint(0, 2)
+        n_other = 3 + n_feat
+        pos = rng.randint(0, n_other)
+        counts = tuple(rng.choice((1, 1, 2, 3)) for _ in range(rng.randint(1, 4)))
+        dd = rng.choice((0, 0, 0, 1, 2))
+        nl = rng.random() < 0.7
+        decor = []
+        for _ in range(rng.randint(1, 3)):
+            line = rng.randint(-1, len(counts) - 1)
+            width = n_other + (1 if line == -1 else counts[line])
+            shape = rng.random()
+            if shape < 0.45:
+                i = rng.randrange(width)
+                decor.append([rng.choice(fkinds), line, i, line, i])
+            elif shape < 0.85 or line == -1 or line + 1 >= len(counts):
+                i, j = sorted(rng.sample(range(width), 2))
+                decor.append([rng.choice(skinds), line, i, line, j])
+            else:
+                decor.append([rng.choice(XLINE_KINDS), line, rng.randrange(width), line + 1,
+                              rng.randrange(n_other + counts[line + 1])])
+        try:
+            pin = SpecialPin(n_feat, pos, counts, dd, nl, decor)
+        except ValueError:
+            continue
+        made += 1
+        yield pin, False
+
+
+def run_special_case(pin, d=None, as_path_objects=False):
+    """in-memory converter case (d is None) or the CLI verify step on a file in directory d; case ids carry the
+    class of the special characters in front"""
+    probs = run_converter_case(pin) if d is None else run_cli_case(d, pin, False, as_path_objects)
+    return [("%s:%s" % (pin.case_class(), cls), text) for cls, text in probs]
+
+
+def check_special(tier, seed):
+    quick = tier == "quick"
+    ck = Check("special_characters_tab_only_splitting",
+               "mokapot.parsers.pin_to_tsv.pin_to_valid_tsv / is_valid_tsv on in-memory text streams; for a "
+               "sub-family also the `if config.verify_pin:` block of mokapot.mokapot.main on real files",
+               "", "")
+    n_mem = n_file = n_differs = n_sharp = 0
+    first = {}                       # case id -> first violation of it (Check keeps 5: show 5 different classes)
+    with scratch("c19s_") as d:
+        for gen in (special_pins(tier), random_special_pins(tier, seed)):
+            for pin, as_file in gen:
+                differs, csv_rect = pin.quoting_matters()
+                n_differs += differs
+                n_sharp += csv_rect is not None and csv_rect != pin.expected_valid()
+                ck.case(pin.key(), nontrivial=differs)
+                n_mem += 1
+                for cls, text in run_special_case(pin):
+                    first.setdefault(cls, (text, pin.as_input()))
+                if as_file and pin.file_safe():
+                    ck.case(("file",) + pin.key(), nontrivial=differs)
+                    n_file += 1
+                    as_path = n_file % 2 == 0
+                    for cls, text in run_special_case(pin, d, as_path):
+                        inp = pin.as_input()
+                        inp["cli"] = {"as_path_objects": as_path}
+                        first.setdefault(cls, (text, inp))
+    rank = lambda c: (0 if c.startswith("quoted-tab:") else 1 if "quoted-" in c else 2)
+    for cls in sorted(first, key=rank):                               # stable: first occurrence within a rank
+        ck.violation(cls, first[cls][0], first[cls][1])
+    ck.bound = (
+        "exhaustive: PIN texts with SpecId, Label, %s feature column(s), Peptide and the Proteins column at every "
+        "header position, in which ONE field is rewritten in one of %d ways (double quote leading / trailing / both "
+        "/ inside / doubled / tripled / alone / followed by text, backslash leading / trailing / inside / before a "
+        "quote, apostrophes, carriage return, form feed, unit separator, NEL, comma, semicolon, space, '#') or TWO "
+        "fields i < j of a line are made the ends of a quoted stretch in one of %d ways (so that 1.. TABs stand "
+        "inside quotes; all pairs i < j): (A) on a PSM row with 1..3 proteins, as the only row, as first or second "
+        "of 2 rows next to a row with 1 or 2 proteins%s, with/without trailing newline, with a DefaultDirection line "
+        "(both forms); (B) the quote opens on one row and closes on the next (rows with 1..3 proteins each, also "
+        "after a one-protein row; from "
+        "every field to the last field of the next row, from the last field to every field, protein field to protein "
+        "field); (C) the same rewritings on the column names other than 'Proteins' (rows with 1, 2, 1+1, 1+3 "
+        "proteins, with a DefaultDirection line).  random: %d texts, seed %d, 0..2 feature columns, 1..4 rows, "
+        "1..3 proteins, DefaultDirection line in 2 of 5, 1..3 rewritings anywhere.  Measured: %d in-memory texts, "
+        "%d of them also as files through the CLI verify step (%d of the rewritings, on the second of two rows / over "
+        "the line break of two rows / on the header of a one-row file; never carriage return or NEL: a text-mode "
+        "file does not give them back unchanged); on %d texts Python's csv reader (TAB delimiter) sees "
+        "other fields than TAB splitting, on %d it disagrees with TAB counting about the file being rectangular"
+        % ("1" if quick else "0..2", len(FIELD_KINDS), len(SPAN_KINDS),
+           "" if quick else ", as first / second / third of 3 rows",
+           2500 if quick else 40000, seed, n_mem, n_file, len(FILE_KINDS), n_differs, n_sharp))
+    ck.rule = (
+        "the format has no quoting or escaping: the oracle is assembled from the (rewritten) parts exactly as in the "
+        "first check - same header, one line per PSM, every non-protein field unchanged and in place, the protein "
+        "fields joined by ':'; is_valid_tsv(input) iff every row has exactly one protein field and there is no "
+        "DefaultDirection line; is_valid_tsv(output); second conversion = first; file cases: afterwards the file "
+        "holds the expected table (byte-identical if it was valid).  Case ids are '<where/what kind of special "
+        "character>:<what went wrong>'.  non-trivial = a quote-aware reader (Python csv, measured, not used for the "
+        "expected answer) splits the text into other fields than TAB splitting does")
+    return ck
+
+
 # ------------------------------------------------------------------------------------------------ replay
 def REPLAY(check_name, violation):
     inp = violation["input"]
     if isinstance(inp, str):
         inp = json.loads(inp)
+    if check_name == "special_characters_tab_only_splitting":
+        pin = SpecialPin.from_input(inp)
+        if inp.get("cli"):
+            with scratch("c19p_") as d:
+                probs = run_special_case(pin, d, inp["cli"].get("as_path_objects", False))
+        else:
+            probs = run_special_case(pin)
+        return {"violated": bool(probs), "detail": probs, "text": pin.text()}
     pin = Pin.from_input(inp)
     if check_name == "pin_to_tsv_lossless_idempotent":
         probs = run_converter_case(pin)
@@ -336,11 +650,16 @@ def _timed(checks):
 
 if __name__ == "__main__":
     a = args()
-    emit(_timed([(check_converter, a.tier, a.seed), (check_cli, a.tier, a.seed)]),
+    emit(_timed([(check_converter, a.tier, a.seed), (check_cli, a.tier, a.seed),
+                 (check_special, a.tier, a.seed)]),
          ["every file has at least one PSM row (is_valid_tsv on a header-only file raises StopIteration: outside "
           "the quantifier, recorded separately)",
           "fields are non-empty and carry no boundary whitespace (pin_to_valid_tsv strips every line); protein "
           "names contain no ':'",
+          "special_characters check: fields never contain a TAB or a '\\n' (these are the separators of the format); "
+          "the column name 'Proteins' itself is never rewritten (the column is found by this name); a carriage "
+          "return or NEL inside a field is exercised on in-memory text streams only (a file opened in text mode "
+          "turns '\\r' into a line break: outside the quantifier); a lone '\\r' is not a line end of the text stream",
           "the DefaultDirection line, when present, is the second line of the file",
           "the CLI step is the real `if config.verify_pin:` block executed outside main(): argument parsing and "
           "the later analysis are not run"])
